@@ -388,3 +388,77 @@ def transforming_calls(body, op, tr=None, depth=0, seen=None):
             t = body.blocks[s[1]]["t"]
             calls.append(t)
     return roots, calls
+
+
+def _locals_read(o, out):
+    """every local read by an operand / rvalue / place fact (projection index locals included)"""
+    if isinstance(o, dict):
+        for k, v in o.items():
+            if k in ("cp", "mv", "ref", "rawptr", "discr", "drop", "len"):
+                if isinstance(v, int) and not isinstance(v, bool):
+                    out.add(v)
+                elif isinstance(v, dict) and "l" in v:
+                    out.add(v["l"])
+                    for e in v.get("p", []):
+                        if isinstance(e, dict) and "idx" in e:
+                            out.add(e["idx"])
+                else:
+                    _locals_read(v, out)
+            elif k in ("c", "ty", "call", "atys", "sty"):
+                continue
+            else:
+                _locals_read(v, out)
+    elif isinstance(o, list):
+        for v in o:
+            _locals_read(v, out)
+
+
+def live_in(body):
+    """classic backward liveness over the body's blocks: {block index: set of locals live on entry}"""
+    n = len(body.blocks)
+    use, dfn = [set() for _ in range(n)], [set() for _ in range(n)]
+    for i, blk in enumerate(body.blocks):
+        u, d_ = set(), set()
+
+        def read(o):
+            r = set()
+            _locals_read(o, r)
+            for l in r:
+                if l not in d_:
+                    u.add(l)
+        for s in blk["s"]:
+            if "d" not in s:
+                continue
+            read(s["r"])
+            if isinstance(s["d"], int):
+                d_.add(s["d"])
+            elif not [e for e in s["d"]["p"]]:
+                d_.add(s["d"]["l"])
+            else:
+                read({"cp": s["d"]})
+        t = blk["t"]
+        read({k: v for k, v in t.items() if k in ("args", "switch", "assert", "drop", "yield")})
+        if "call" in t and t.get("dest") is not None:
+            if isinstance(t["dest"], int):
+                d_.add(t["dest"])
+            elif not t["dest"]["p"]:
+                d_.add(t["dest"]["l"])
+            else:
+                read({"cp": t["dest"]})
+        if "return" in t:
+            if 0 not in d_:
+                u.add(0)
+        use[i], dfn[i] = u, d_
+    live = [set() for _ in range(n)]
+    changed = True
+    while changed:
+        changed = False
+        for i in range(n - 1, -1, -1):
+            out = set()
+            for s_ in body.succ(i):
+                out |= live[s_]
+            new = use[i] | (out - dfn[i])
+            if new != live[i]:
+                live[i] = new
+                changed = True
+    return {i: live[i] for i in range(n)}
